@@ -29,8 +29,15 @@
 (*    master presents write data not before its address), readonly, badlo (0: none; else bytes with index >= badlo form *)
 (*    a faulting region, aligned to the widest word of the chain: accesses *)
 (*    to it are answered with an error by the backing slave)               *)
+(*    badhi (optional, > 0): the faulting region is the bytes with index   *)
+(*    badlo .. badhi only, aligned to the NARROWEST word of the chain, so  *)
+(*    that a master word can be partly faulting (one sub-word access of a  *)
+(*    down-converter is answered with an error, another one with OKAY).    *)
+(*    A read of a word that has a faulting byte must report the error; a   *)
+(*    write must report it if it enables a faulting byte, may report it if *)
+(*    the word has a faulting byte, and must report OKAY otherwise.        *)
 (***************************************************************************)
-EXTENDS Integers, Sequences, FiniteSets, TLC
+EXTENDS Integers, Sequences, FiniteSets, TLC, BridgeWit
 
 VARIABLES mem,   \* reference memory: byte index (from 1) -> 0 / 1
           ms,    \* master / monitor state
@@ -74,7 +81,9 @@ MInputs(c) ==
                         c.awfirst = 1 => (x[2] # 0 => Len(ms.wd) + 1 <= Len(ms.wa) + (IF x[1] # 0 THEN 1 ELSE 0)) } }
 
 WIndex(c, strb, data) == CHOOSE i \in 1..Len(c.walpha) : c.walpha[i] = <<strb, data>>
-BadWord(c, a) == c.badlo > 0 /\ a * c.lanes + 1 >= c.badlo
+BadByte(c, b) == c.badlo > 0 /\ b >= c.badlo /\ (Field(c, "badhi", 0) > 0 => b <= c.badhi)
+BadWord(c, a) == \E l \in LaneSet(c) : BadByte(c, a * c.lanes + l + 1)       \* the word has a faulting byte
+AllBad(c, a)  == \A l \in LaneSet(c) : BadByte(c, a * c.lanes + l + 1)
 IsErr(resp) == resp \in {2, 3}
 
 MStep(c, miv, mo) ==
@@ -111,8 +120,9 @@ MStep(c, miv, mo) ==
                   \A l \in LaneSet(c) : rl1[1][2][l] = 2 \/ mo[8 + l] = rl1[1][2][l]
       \* ---- response codes: OKAY for the memory, an error for the faulting region
       okcode == /\ (bvalid /\ bok) =>
-                     LET a == Head(wa1)  st == Head(wd1)[1] IN
-                     IF BadWord(c, a) THEN (st = 0 \/ IsErr(mo[4])) ELSE mo[4] = 0
+                     LET a == Head(wa1)  st == Head(wd1)[1]
+                         must == \E l \in LaneSet(c) : Bit(st, l) = 1 /\ BadByte(c, B(a, l))
+                     IN IF must THEN IsErr(mo[4]) ELSE IF BadWord(c, a) THEN TRUE ELSE mo[4] = 0
                 /\ (rvalid /\ rok) =>
                      (IF BadWord(c, rl1[1][1]) THEN IsErr(mo[7]) ELSE mo[7] = 0)
       rcur == <<mo[7]>> \o [l \in 1..c.lanes |-> mo[7 + l]]
@@ -143,6 +153,10 @@ MStep(c, miv, mo) ==
               rwait  |-> rl1 # <<>> /\ ~(rfire /\ rok),
               \* the master cooperates: ready for responses, and it supplies both halves of its writes
               mfair  |-> miv[6] = 1 /\ miv[9] = 1 /\ Len(AWs) = Len(Ws)]
+  /\ WitIf(bvalid /\ bok /\ IsErr(mo[4]) /\ BadWord(c, Head(wa1)) /\ ~AllBad(c, Head(wa1)), c, 1,
+           "write error, partly faulting word")
+  /\ WitIf(rvalid /\ rok /\ IsErr(mo[7]) /\ BadWord(c, rl1[1][1]) /\ ~AllBad(c, rl1[1][1]), c, 2,
+           "read error, partly faulting word")
 
 (* master-side events of this cycle, for the slave-side CSR clause *)
 MEvents(c, miv, mo) ==
